@@ -4,6 +4,7 @@ import TT.Driver.C05
 import TT.Driver.C06
 import TT.Driver.C11
 import TT.Driver.C12
+import TT.Driver.C13
 import TT.Driver.C15
 /-
 Line-protocol driver: one query per input line, one answer per output line.
@@ -19,6 +20,7 @@ def answer (line : String) : String :=
   | "c06" :: rest => c06 rest
   | "c11" :: rest => c11 rest
   | "c12" :: rest => c12 rest
+  | "c13" :: rest => c13 rest
   | "c15" :: rest => c15 rest
   | _ => "bad-op"
 
